@@ -117,7 +117,8 @@ inductive Op where
   | sub (s : Str) (t u : Nat)      -- Subscribe; `u` = the suffix the clock produced
   | unsub (k : Nat)                -- UnSubscribe(the id returned by the k-th Subscribe)
   | unsubRaw (id : Str)            -- UnSubscribe(any string)
-  | deliver (s : Str) (t : Nat)    -- an inbound message of (session, type)
+  | deliver (s : Str) (t : Nat)    -- an inbound message of (session, type), of any size
+  | close (s : Str)                -- CloseSession(s): releases the session's OUTBOUND streams; not a cancellation
 deriving Repr
 
 inductive Res where
@@ -142,6 +143,7 @@ def step (r : Run) : Op → Run
     | none => ⟨r.st, r.ids, r.out ++ [.unit]⟩
   | .unsubRaw id => ⟨unsubscribe r.st id, r.ids, r.out ++ [.unit]⟩
   | .deliver s t => ⟨r.st, r.ids, r.out ++ [.recv (subscribers r.st s t)]⟩
+  | .close _ => ⟨r.st, r.ids, r.out ++ [.unit]⟩
 
 def run (ops : List Op) : Run := ops.foldl step ⟨[], [], []⟩
 
@@ -164,6 +166,7 @@ def sstep (r : SRun) : Op → SRun
   | .unsub k => ⟨r.live.filter (fun l => l.h != k), r.n, r.out⟩
   | .unsubRaw _ => r          -- outside the property (excluded by `wf`)
   | .deliver s t => ⟨r.live, r.n, r.out ++ [(r.live.filter fun l => l.sess = s && l.ty = t).map (·.h)]⟩
+  | .close _ => r             -- closing a session cancels nobody
 
 def srun (ops : List Op) : SRun := ops.foldl sstep ⟨[], 0, []⟩
 
@@ -190,6 +193,7 @@ def wfFrom : List (Str × Nat × Nat) → List Op → Bool
   | seen, .unsub _ :: ops => wfFrom seen ops
   | _, .unsubRaw _ :: _ => false
   | seen, .deliver _ _ :: ops => wfFrom seen ops
+  | seen, .close _ :: ops => wfFrom seen ops
 
 def wf (ops : List Op) : Bool := wfFrom [] ops
 
@@ -200,6 +204,7 @@ def wfIn : List Op → Bool
   | .unsub _ :: ops => wfIn ops
   | .unsubRaw _ :: _ => false
   | .deliver _ _ :: ops => wfIn ops
+  | .close _ :: ops => wfIn ops
 
 /-- the OUTPUT half of `wf` — a statement about the identifiers the implementation handed out (the suffix of each
     `sub` is read off the id it returned): every identifier is FRESH, i.e. different from every identifier handed
